@@ -741,6 +741,34 @@ func vfC10Session13(res *vfResult, p *vfPair, cfg vfCfg, written map[string][][]
 		"c": secretsOf(cst, ks.HandshakeTraffic.Client, ks.ClientApplicationTrafficSecret0),
 		"s": secretsOf(sst, ks.HandshakeTraffic.Server, ks.ServerApplicationTrafficSecret0),
 	}
+	// "a passive decoder holding the key log": each endpoint's key log must hand over, keyed by the client random,
+	// the secrets this decoder works with (NSS key log labels for TLS 1.3)
+	cr := cst.LocalRandom.MarshalFixed()
+	wantLog := map[string][]byte{
+		"CLIENT_HANDSHAKE_TRAFFIC_SECRET": ks.HandshakeTraffic.Client, "SERVER_HANDSHAKE_TRAFFIC_SECRET": ks.HandshakeTraffic.Server,
+		"CLIENT_TRAFFIC_SECRET_0": ks.ClientApplicationTrafficSecret0, "SERVER_TRAFFIC_SECRET_0": ks.ServerApplicationTrafficSecret0,
+		"EXPORTER_SECRET": ks.ExporterMasterSecret,
+	}
+	for _, side := range []*vfSide{p.C, p.S} {
+		got := map[string]string{}
+		for _, f := range side.Keylog.Lines() {
+			if len(f) == 3 && f[1] == vfHex(cr[:]) {
+				got[f[0]] = f[2]
+			}
+		}
+		for label, want := range wantLog {
+			res.Count("keylog13_lines_expected", 1)
+			switch v, ok := got[label]; {
+			case !ok:
+				vfC10Bad(res, fmt.Sprintf("the %s's key log has no %s line for this session's client random (%d lines in all): a passive decoder holding the key log cannot process the DTLS 1.3 traffic",
+					side.Name, label, len(side.Keylog.Lines())), "keylog13:missing-line:"+label, nil)
+			case v != vfHex(want):
+				vfC10Bad(res, fmt.Sprintf("the %s's key log line %s does not carry the secret the session uses", side.Name, label), "keylog13:wrong-secret:"+label, nil)
+			default:
+				res.Count("keylog13_lines_checked", 1)
+			}
+		}
+	}
 	// the library's own retained generations must be the RFC successor chain
 	for _, side := range []struct {
 		n  string
